@@ -11,6 +11,7 @@ import (
 	"os"
 	"path/filepath"
 	"sync"
+	"sync/atomic"
 	"time"
 
 	log "github.com/go-spring/log"
@@ -83,11 +84,14 @@ func c19Outage(w *W) {
 		return
 	}
 	b0 := time.Now().Truncate(interval) // boundary #0 = start of the current interval; #k = b0 + k s
-	at := func(k, offMs int) time.Time { return b0.Add(time.Duration(k)*interval + time.Duration(offMs)*time.Millisecond) }
+	at := func(k, offMs int) time.Time {
+		return b0.Add(time.Duration(k)*interval + time.Duration(offMs)*time.Millisecond)
+	}
 	stopAt := at(pl.Boundaries, 400)
 	type span struct{ from, to time.Time }
 	var outages []span
 	var omu sync.Mutex
+	var ctlErr atomic.Value
 	// fault controller
 	ctlDone := make(chan struct{})
 	go func() {
@@ -95,7 +99,7 @@ func c19Outage(w *W) {
 		for _, o := range pl.Outages {
 			time.Sleep(time.Until(at(o.FromBoundary, o.FromOffMs)))
 			t1 := time.Now()
-			_ = os.Rename(dir, away)
+			e1 := os.Rename(dir, away)
 			if o.AsFile {
 				_ = os.WriteFile(dir, []byte("not a directory"), 0644)
 			}
@@ -103,7 +107,10 @@ func c19Outage(w *W) {
 			if o.AsFile {
 				_ = os.Remove(dir)
 			}
-			_ = os.Rename(away, dir)
+			e2 := os.Rename(away, dir)
+			if st, e3 := os.Stat(dir); e1 != nil || e2 != nil || e3 != nil || !st.IsDir() {
+				ctlErr.Store(fmt.Sprintf("fault controller: rename away: %v, rename back: %v, stat: %v", e1, e2, e3))
+			}
 			omu.Lock()
 			outages = append(outages, span{t1, time.Now()})
 			omu.Unlock()
@@ -143,6 +150,12 @@ func c19Outage(w *W) {
 	<-ctlDone
 	if pv, _ := catch(ap.Stop); pv != nil {
 		w.Violate("C19:stop-panic", fmt.Sprintf("Stop panicked: %v", pv), cs)
+	}
+	if e, _ := ctlErr.Load().(string); e != "" {
+		// the fault injector itself failed: nothing can be concluded from this run
+		w.Inconclusive("[" + pl.Name + "] " + e)
+		w.Eval(1)
+		return
 	}
 	// offline check
 	ents, _ := os.ReadDir(dir)
